@@ -90,7 +90,7 @@ fn with_clause(w: &Option<WithSpec>) -> Option<String> {
     let Some(w) = w else { return Some(String::new()) };
     let mut ctes = vec![];
     for c in &w.ctes {
-        let mut s = q(QUALS[6 + c.name as usize % 2]);
+        let mut s = q(cte_name(c.name));
         let cols = c.effective_cols();
         if !cols.is_empty() {
             s.push_str(&format!(" ({})", cols.iter().map(|x| q(x)).collect::<Vec<_>>().join(", ")));
